@@ -3,6 +3,8 @@ CONSTANTS
   Sent <- Sent2
   Prefix = 2
   Cap = 100
+  MaxGiveUps = 0
+  ResumeAfterTimeout = FALSE
   EofYieldsShort = TRUE
   MaxPend = 2
 INVARIANT OutIsPrefixOfSent
